@@ -681,7 +681,15 @@ class Tee:
 
     def __exit__(self, exc_type, exc_value, traceback):
         try:
-            if self.__owner: self.__file.close()
+            try:
+                # The extractor stops reading at the end of the tar stream.
+                # Drain the rest of the file (end of the compressed stream,
+                # checksum, padding) so that the mirrors get the whole artifact.
+                if exc_type is None and self.__caches:
+                    leecher = MirrorLeecher(self.__file, self.__caches)
+                    while leecher.read(0x10000): pass
+            finally:
+                if self.__owner: self.__file.close()
             if exc_type is None:
                 while self.__caches:
                     c = self.__caches.pop(0)
